@@ -4,11 +4,17 @@ P  Props/C04.v over exact rationals, k > 0: the primitive layer (+ - neg max min
    compute_leaf_layout and the one-node root layout (Model/Leaf.v, Model/Root.v), the three absolutely-positioned kernels
    incl. style resolution (Model/AbsPos.v over Gen/AbsPosGen.v); refuted: pixel rounding, is_roughly_equal, the grid
    THRESHOLD comparison, the flex intrinsic main-size step (Model/FlexFraction.v) with its two proved complements.
+   Container KERNELS (Proofs/ScaleFlex.v, ScaleBlock.v, ScaleGrid.v): flex resolve_flexible_lengths / distribute_remaining_free_space /
+   line_positions (Model/Flex.v), block margin sets / generate_item_list / block_inflow with scaled child outputs / compute_inner's
+   decisions invariant (Model/Block.v), grid explicit count / track initialisation / find_size_of_fr / expand_flexible_tracks /
+   stretch_auto_tracks / align_tracks and distribute_space_up_to_limits / maximise_tracks with the THRESHOLD as a length
+   (dist THRESHOLD (scale k x) ~ scale k (dist (THRESHOLD / k) x)); refuted with the fixed threshold (witness replayed: vh c09 one).
 T  Gen/MathGen.v, Gen/AbsPosGen.v, Gen/RoundingGen.v, Gen/CacheGen.v are regenerated from /repo on every run: the table
    and abspos theorems are about the regenerated terms, so a source edit there re-proves or breaks them.
 K  the kernels the theorems are about are tied to the code by the correspondences of C19 (Model/LeafRun.v: one-node trees
-   and direct compute_leaf_layout calls) and C11 (Model/AbsPosRun.v), re-run here with a C04-specific seed over F32,
-   bit for bit.
+   and direct compute_leaf_layout calls), C11 (Model/AbsPosRun.v), C07 (Model/FlexRun.v), C10 (Model/BlockRun.v: K1 container of
+   leaves, K2 containers of nested trees with recorded child outputs) and C09 (Model/GridTracksRun.v), re-run here with a
+   C04-specific seed over F32, bit for bit.
 S  `vh c04 oracle`: random trees (all displays, measure functions, definite / min- / max-content available space) laid
    out from scratch as generated and with every absolute length multiplied by k in {1/8,1/4,1/2,2,4,16}; every f32 field
    of every node's unrounded layout must equal k * original bit for bit.  Mismatches are classified (harness/src/c04.rs):
@@ -68,6 +74,67 @@ def kernel_tie_abs(rep, binp, seed, n):
     return cases, bad
 
 
+def kernel_tie_container(rep, binp, label, vh_args, target, imports, fn, desc, skip_model=None, batch=600):
+    """Correspondence of another property (C07 / C10 / C09) for the container kernels of C04_flex_* / C04_block_* / C04_grid_*, our seed.
+    Cases on which the implementation did not return ([-2], or a trailing C line) are the owning property's business: dropped here."""
+    rc, out = vh(binp, vh_args, timeout=300)
+    lines = [l for l in out.split('\n') if l[:2] in ('C ', 'R ')]
+    if lines and lines[-1].startswith('C '):
+        lines = lines[:-1]
+    try:
+        cases, impl = parse_cr('\n'.join(lines))
+    except RuntimeError as ex:
+        cases, impl, out = [], [], out + str(ex)
+    pairs = [(c, a) for c, a in zip(cases, impl) if a != [-2]]
+    cases, impl = [q[0] for q in pairs], [q[1] for q in pairs]
+    if not cases:
+        rep.add_broken('correspondence', 'vh %s (%s kernels)' % (' '.join(str(a) for a in vh_args[:2]), label), 'harness failed: ' + out[-500:])
+        return [], []
+    try:
+        with Lock('coq'):
+            rcm, outm, _ = coq_make([target])
+        if rcm != 0:
+            raise RuntimeError(outm[-1500:])
+        model = run_model('C04' + label, imports, fn, cases, scope='Z', elem='list Z', batch=batch)
+        keep = [i for i, m in enumerate(model) if skip_model is None or m != skip_model]
+        bad = diff_results(rep, desc, [cases[i] for i in keep], [impl[i] for i in keep], [model[i] for i in keep])
+        cases = [cases[i] for i in keep]
+    except RuntimeError as ex:
+        rep.add_broken('correspondence', 'model evaluation (%s kernels)' % label, str(ex)[-1500:])
+        bad = []
+    return cases, bad
+
+
+def f32_bits(x):
+    import struct
+    return struct.unpack('<I', struct.pack('<f', x))[0]
+
+
+def bits_f32(u):
+    import struct
+    return struct.unpack('<f', struct.pack('<I', u & 0xffffffff))[0]
+
+
+def grid_threshold_witness(binp, k):
+    """The witness of C04_grid_maximise_refuted as a `vh c09 one` case: one column minmax(0px, 1px), one row 50px, container 1/16 x 50,
+    one 0 x 0 item at (1, 1); everything multiplied by k.  Returns the size of the column track (float) or None."""
+    b = f32_bits
+    c = [b(0.0625 * k), b(50.0 * k)] + [0] * 8 + [0, 0, 0, 0] + [0, 0]
+    c += [1, 0, 0, b(0.0), 0, b(1.0 * k)]            # columns: one Single entry, min = 0px, max = k px
+    c += [1, 0, 0, b(50.0 * k), 0, b(50.0 * k)]      # rows: 50k px
+    c += [0, 0] + [1, 1, 1, 0, 0]                    # no auto tracks; one item on column line 1 / row line 1, size 0 x 0
+    rc, out = vh(binp, ['c09', 'one'] + c, timeout=60)
+    try:
+        _, impl = parse_cr(out)
+        r = impl[0]
+        # R = neg, explicit, pos counts of the columns, number of sizes, the sizes ...: [0, 1, 0, 1, <bits>, ...]
+        if r[:4] != [0, 1, 0, 1]:
+            return None
+        return bits_f32(r[4])
+    except (RuntimeError, IndexError):
+        return None
+
+
 def parse_fail(line):
     """FAIL <idx> k=<k> class=<c> node=.. field=.. orig=.. scaled=.. expected=.. ..."""
     p = line.split()
@@ -88,8 +155,14 @@ def run(rep, tier, seed, replay=None):
         'theorems are over exact rationals (XQ); that scaling by a power of two is exact in binary32 away from overflow/underflow is '
         'not proved here (the oracle compares bit for bit and observes it)',
         'measure functions are pure and homogeneous (premise measure_homog; holds for the three measure functions of the harness)',
-        'the flex / grid / block container algorithms as wholes, the cache and pixel rounding are outside the proved kernels: covered by '
-        'the implementation-side oracle only',
+        'hand models Model/Flex.v, Model/Block.v, Model/GridTracks.v (container kernels of C04_flex_* / C04_block_* / C04_grid_*): tied to '
+        'the source by the C07 / C10 / C09 correspondences (re-run here) and, for the alignment tables, margin sets and thresholds, by '
+        'regeneration (Gen/FlexGen.v, Gen/BlockGen.v, Gen/GridTracksGen.v)',
+        'over binary32 `free_space.is_normal()` (flex 9.7) is false for subnormal values, a set that is not closed under scaling; over XQ '
+        'it is `finite and non-zero` and invariant',
+        'what feeds the container kernels is outside the proofs and covered by the implementation-side oracle only: flex base sizes, '
+        'line breaking, cross axis, baselines; grid placement and step 11.5 (a premise of C04_grid_track_sizing_partial); block '
+        'content-based width; the engine recursion (child outputs are oracle values of the kernels), the cache and pixel rounding',
         'classification of oracle mismatches into the two known findings is decided on the style tree (over-approximation, rate-limited)']
     res, changed = proof_stage(rep, 'C04', extra_trusted=trusted)
     if not res['compiled'] and 'Error' not in res.get('output', ''):
@@ -100,7 +173,7 @@ def run(rep, tier, seed, replay=None):
     if rc != 0:
         rep.add_broken('build', 'harness', out[-1500:])
         return
-    mine = [c for c in changed if c.startswith('gen_math:') or c.startswith('gen_abspos')]
+    mine = [c for c in changed if c.split(':')[0] in ('gen_math', 'gen_flex', 'gen_block', 'gen_gridtracks') or c.startswith('gen_abspos')]
     rep.cov['fingerprints_changed'] = mine
     big = tier == 'thorough' or bool(rep.broken) or bool(mine)
     kseed = (seed ^ 0xC04) & 0x7fffffff
@@ -116,6 +189,26 @@ def run(rep, tier, seed, replay=None):
             samples.append({'kernel_tie_leaf_case': lc[0]})
         if ac:
             samples.append({'kernel_tie_abspos_case': ac[0]})
+        fc, fbad = kernel_tie_container(rep, binp, 'flex', ['c07', 'cases', kseed, 3000 if big else 200], 'Model/FlexRun.vo',
+                                        'From TV Require Import Model.FlexRun.', 'run_case',
+                                        'Model.Flex (resolve_flexible_lengths, distribute_remaining_free_space, line_positions) over F32 vs a flex '
+                                        'container of leaves through the public API')
+        bc, bbad = kernel_tie_container(rep, binp, 'block', ['c10', 'cases', kseed, 3000 if big else 300], 'Model/BlockRun.vo',
+                                        'From TV Require Import Model.BlockRun.', 'run_case',
+                                        'Model.Block (generate_item_list, block_inflow, compute_inner decisions) over F32 vs a block container of leaves')
+        b2c, b2bad = kernel_tie_container(rep, binp, 'block2', ['c10', 'kcases2', kseed, 1500 if big else 150], 'Model/BlockRun.vo',
+                                          'From TV Require Import Model.BlockRun.', 'run_case2',
+                                          'Model.Block.block_inflow with recorded child outputs (oracle values) over F32 vs block containers of nested trees',
+                                          skip_model=[-1])
+        gc, gbad = kernel_tie_container(rep, binp, 'grid', ['c09', 'cases', kseed, 2000 if big else 150], 'Model/GridTracksRun.vo',
+                                        'From TV Require Import Model.GridTracksRun.', 'run_case',
+                                        'Model.GridTracks (track initialisation, track sizing, alignment) over F32 vs DetailedGridInfo', batch=200)
+        rep.cov['kernel_tie'].update({'flex_cases': len(fc), 'flex_disagreements': len(fbad), 'block_cases': len(bc),
+                                      'block_disagreements': len(bbad), 'block_nested_containers': len(b2c),
+                                      'block_nested_disagreements': len(b2bad), 'grid_cases': len(gc), 'grid_disagreements': len(gbad)})
+        for tag, cs in (('flex', fc), ('block', bc), ('grid', gc)):
+            if cs:
+                samples.append({'kernel_tie_%s_case' % tag: cs[-1]})
 
     # ---- S: the property on the implementation
     n = 2000000 if big else 150000
@@ -206,13 +299,37 @@ def run(rep, tier, seed, replay=None):
             rep.cov.setdefault('stale_known_findings', []).append(FLEX_ID)
             log('[C04] known finding %s did not reproduce: the entry in known_findings.json is stale' % FLEX_ID)
 
+    # the witness of C04_grid_maximise_refuted on the implementation: column minmax(0px, 1px) in a 1/16 px container, k = 1/8
+    g1, g8 = grid_threshold_witness(binp, 1.0), grid_threshold_witness(binp, 0.125)
+    rep.cov['grid_threshold_witness'] = {'column_px': g1, 'column_px_scaled_by_1_8': g8, 'expected_scaled': 0.0078125,
+                                         'model': 'C04_grid_maximise_witness_values: 1/16 and 0'}
+    if g1 is None or g8 is None:
+        rep.add_broken('search', 'vh c09 one (grid threshold witness)', 'no result: %r %r' % (g1, g8))
+    elif g1 != 0.0625:
+        rep.add_broken('correspondence', 'grid threshold witness', 'the model (C04_grid_maximise_witness_values) says 1/16, the implementation %r' % g1)
+    elif g8 == 0.0078125:
+        if GRID_ID in kf:
+            rep.cov.setdefault('stale_known_findings', []).append(GRID_ID + ' (kernel witness)')
+            log('[C04] the witness of C04_grid_maximise_refuted is homogeneous on the implementation: stale')
+        rep.add_broken('correspondence', 'grid threshold witness', 'the model says 0 at k = 1/8 (C04_grid_maximise_witness_values), the implementation 1/128')
+    elif g8 == 0.0:
+        if GRID_ID in kf:
+            if not (thr or amp):
+                rep.known.append(kf[GRID_ID]['line'].replace('known: property=C04 ', '') + ' [kernel witness only: column minmax(0,1px) in 1/16 px '
+                                 'is 0.0625 px, at k = 1/8 it is 0 px instead of 0.0078125 px]')
+        else:
+            rep.add_violation('grid track sizing is not homogeneous (witness of C04_grid_maximise_refuted): column minmax(0,1px) in a 1/16 px '
+                              'container is 0.0625 px, everything scaled by 1/8 it is 0 px instead of 0.0078125 px', {'cmd': 'vh c09 one', 'k': 0.125})
+    else:
+        rep.add_broken('correspondence', 'grid threshold witness', 'the model says 0 at k = 1/8, the implementation %r' % g8)
+
     rep.cov['rule'] = ('oracle case = (seed, idx): a treegen tree (up to 12 / 20 nodes; idx mod 4 selects all displays / flex only / grid only / '
                        'block+flex; dyadic lengths in quarters below 2^9, dyadic percentages, flex factors in {0,1/2,1,2}, fr, aspect ratios, '
                        'absolute and hidden nodes, Fixed / Text / Echo measure contexts), an available space (definite / min-content / '
                        'max-content per axis) and k in {1/8,1/4,1/2,2,4,16}; both trees are built and laid out from scratch with rounding '
                        'disabled; all 20 f32 fields + order of every node are compared with k * original bit for bit (zeros of either sign '
                        'identified); distinct_nontrivial = distinct (printed style tree, available space, k) among trees with at least two '
-                       'nodes, counted by the harness; kernel tie = C19 and C11 correspondence cases evaluated over F32 in Coq')
+                       'nodes, counted by the harness; kernel tie = C19, C11, C07, C10 (K1, K2) and C09 correspondence cases evaluated over F32 in Coq')
     if summary:
         rep.cov['input_distribution'] = {k: summary[k] for k in ('with_flex', 'with_grid', 'with_block', 'with_measure', 'in_known_class',
                                                                   'k8th', 'k4th', 'khalf', 'k2', 'k4', 'k16') if k in summary}
@@ -225,6 +342,13 @@ def run(rep, tier, seed, replay=None):
                                '(compute_leaf_layout i st measure) (compute_leaf_layout (input_scale k i) (style_scale k st) measure\')'})
     samples.append({'theorem': 'C04_abs_flex : forall k c i measure measure\', 0 < k -> abs_measure_homog k measure measure\' -> absout_rel k '
                                '(abs_flex c i measure) (abs_flex (flexc_scale k c) (absin_scale k i) measure\')'})
+    samples.append({'theorem': 'C04_flex_resolve_flexible_lengths : forall k items gap inner_main, 0 < k -> op_rel (items_rel k) '
+                               '(resolve_flexible_lengths items gap inner_main) (resolve_flexible_lengths (map (item_scale k) items) '
+                               '(x_scale k gap) (opt_scale k inner_main))'})
+    samples.append({'theorem': 'C04_block_inflow : forall k P xs, 0 < k -> binflow_rel k (block_inflow P xs) (block_inflow (bparams_scale k P) '
+                               '(map (bpair_scale k) xs))'})
+    samples.append({'theorem': 'C04_grid_maximise_threshold : forall k inner a ts, 0 < k -> tracks_rel k (maximise_tracks_t (Fin '
+                               '(DISTRIBUTE_THRESHOLD_Q / k)) inner a ts) (maximise_tracks (opt_scale k inner) (gavail_scale k a) (map (track_scale k) ts))'})
     samples.append({'theorem': 'C04_flex_intrinsic_refuted : exists k cc fb ifb g s, 0 < k /\\ finite .. /\\ ~ sc k (item_target_size cc fb ifb g s) '
                                '(item_target_size (x_scale k cc) (x_scale k fb) (x_scale k ifb) g s)'})
     rep.cov['samples'] = samples
